@@ -182,7 +182,7 @@ def check(run):
 
 def check_rotation_resets(run, rule):
     facts = run.facts
-    wbb = facts.fn(EXP + "::write_block", sig=["CDNS::CdnsBlock &"], rule=rule)
+    wbb = ir.normal_path(facts.fn(EXP + "::write_block", sig=["CDNS::CdnsBlock &"], rule=rule))
     env = Env(wbb["body"])
     reads = set()
     for st, g, loops in ir.guarded_statements(wbb["body"], env):
@@ -197,7 +197,7 @@ def check_rotation_resets(run, rule):
                         reads.add(fld["n"])
     if not reads:
         run.ob(rule, "write_block:header-state", None, wbb, wbb["line"], "the condition under which the file header is written reads no exporter member")
-    rots = [f for f in facts.fns(EXP + "::rotate_output")]
+    rots = [ir.normal_path(f) for f in facts.fns(EXP + "::rotate_output")]
     for ro in rots:
         from .C02 import reset_at_exit, member_writes
         assigned = set()
